@@ -247,6 +247,8 @@ def render_module(st, mod, stub=False) -> str:
         out += ["def fl_%s() -> None:" % dep.replace(".", "_"), "    import %s as loc" % dep, "    loc.__name__ + 1"]
     if m["broken"]:
         out.append("def broken(:")
+    if m.get("semblock"):
+        out.append("continue")  # a blocker reported by semantic analysis, not by the parser
     return "\n".join(out) + "\n"
 
 
@@ -278,7 +280,7 @@ def render(st) -> dict:
 # ---------------------------------------------------------------- edits
 
 EDIT_KINDS = ["change_export", "change_export", "change_export", "add_export", "remove_export", "add_use", "remove_use", "change_use", "add_import", "remove_import", "restyle_import",
-              "toggle_broken", "toggle_ignore", "delete_module", "add_module", "rename_module", "to_package", "add_stub", "remove_stub", "set_base", "fix_errors"]
+              "toggle_broken", "toggle_semblock", "toggle_ignore", "delete_module", "add_module", "rename_module", "to_package", "add_stub", "remove_stub", "set_base", "fix_errors"]
 
 
 def draw_edit(st, rnd: random.Random) -> dict:
@@ -361,6 +363,12 @@ def apply_edit(st, op) -> bool:
         m["imports"][op["dep"]] = op["style"]
     elif kind == "toggle_broken":
         m["broken"] = not m["broken"]
+    elif kind == "toggle_semblock":
+        m["semblock"] = not m.get("semblock")
+        if m["semblock"] and m["exports"]:
+            # the same edit also changes an interface, so dependants must be re-checked once the blocker is gone
+            e = m["exports"][rnd.choice(sorted(m["exports"]))]
+            e[rnd.choice(["p", "r", "t"])] = rnd.choice(TYPES)
     elif kind == "delete_module" and len(st["mods"]) > 2:
         if any(o.startswith(mod + ".") for o in st["mods"]):
             return False
@@ -390,12 +398,13 @@ def apply_edit(st, op) -> bool:
         for e in m["exports"].values():
             e["ok"] = True
         m["broken"] = False
+        m["semblock"] = False
     return json.dumps(st, sort_keys=True) != before
 
 
 PROFILES = {
     # daemon-friendly fragments, enabled construct by construct (C03 saturation protocol)
-    "basic": {"edits": ["change_export", "change_export", "add_export", "remove_export", "add_use", "remove_use", "change_use", "toggle_ignore", "fix_errors", "set_base"],
+    "basic": {"edits": ["change_export", "change_export", "add_export", "remove_export", "add_use", "remove_use", "change_use", "toggle_ignore", "toggle_semblock", "fix_errors", "set_base"],
               "styles": ["import", "import", "from"], "kinds": ["func", "func", "cls", "cls", "const", "alias", "box", "nt", "dc", "enum", "ovl"]},
     "structure": {"edits": ["change_export", "add_export", "remove_export", "add_use", "remove_use", "change_use", "add_import", "remove_import", "restyle_import", "toggle_broken", "toggle_ignore",
                             "delete_module", "add_module", "set_base", "fix_errors"],
